@@ -1,7 +1,7 @@
 (* C10: trace checker (model vs implementation) and monitor (property vs implementation).
    The monitor replays the observed calls and outcomes into a *plain ownership map*
    (Run/NftCommon.v [ghost]) and compares every observed getter with it. *)
-From SC Require Import Lib.Prelude Lib.Int Lib.Host Model.Nft Run.NftCommon.
+From SC Require Import Lib.Prelude Lib.Int Lib.Host Model.Nft Model.NftBits Model.NftBitsRun Run.NftCommon.
 Local Open Scope N_scope.
 
 Definition is_none {A} (o : option A) : bool := match o with None => true | Some _ => false end.
@@ -54,6 +54,16 @@ Definition c10_live (fl : flavour) (c : cfg) (g : ghost) (cl : call) (o : outcom
       then is_ok o else true
   | Burn auths from id =>
       if has_auth auths from && oaddr_eqb (rget (g_own g) id) (Some from) then is_ok o else true
+  | TransferFrom auths sp from to id =>
+      (* ... and so does the owner's approved account or operator, while that approval is in force *)
+      if has_auth auths sp && oaddr_eqb (rget (g_own g) id) (Some from)
+         && ((sp =? from) || oaddr_eqb (live_appr g id) (Some sp) || live_oper g from sp)
+         && (cnt (g_cnt g) to + 1 <=? MAXU32N)
+      then is_ok o else true
+  | BurnFrom auths sp from id =>
+      if has_auth auths sp && oaddr_eqb (rget (g_own g) id) (Some from)
+         && ((sp =? from) || oaddr_eqb (live_appr g id) (Some sp) || live_oper g from sp)
+      then is_ok o else true
   | BatchMint to amt =>
       (* every batch size 1 ..= MAX_TOKENS_IN_BATCH is accepted (ids and balance not at the u32 limit) *)
       match fl with
@@ -108,5 +118,76 @@ Fixpoint mon_from (fl : flavour) (c : cfg) (full : bool) (g : ghost) (l : list (
   end.
 Definition monitor (t : trace) : N := mon_from (t_fl t) (t_cfg t) (t_full t) (ghost0 (t_now0 t)) (t_steps t) 0.
 
-Definition check (t : trace) : verdict := (diff t, monitor t, 0).
-Definition check_all (ts : list trace) : list verdict := map check ts.
+(* ================= bit-level correspondence (consecutive flavour) =================
+   The same calls are replayed through the bit-level transcription (Model/NftBitsRun.v) and compared
+   with the implementation: outcomes, owner_of for every queried id, and the RAW ownership buckets read
+   from the contract's storage after every call. *)
+
+(* a raw bucket as observed: None = no storage entry; Some (number of words, the non-zero words with
+   their item index) *)
+Definition bdump := list (N * option (N * list (N * N))).
+Fixpoint nonzero_from (l : bucket) (i : N) : list (N * N) :=
+  match l with
+  | [] => []
+  | x :: r => if x =? 0 then nonzero_from r (i + 1) else (i, x) :: nonzero_from r (i + 1)
+  end.
+Definition dump_model (bs : buckets) (shape : bdump) : bdump :=
+  map (fun p => (fst p, match aget N.eqb (fst p) bs with
+                        | Some bk => Some (N.of_nat (length bk), nonzero_from bk 0)
+                        | None => None
+                        end)) shape.
+Definition words_eqb (a b : N * list (N * N)) : bool :=
+  (fst a =? fst b) && list_eqb (fun p q => (fst p =? fst q) && (snd p =? snd q)) (snd a) (snd b).
+Definition bdump_eqb (a b : bdump) : bool :=
+  list_eqb (fun p q => (fst p =? fst q)
+                       && match snd p, snd q with
+                          | Some x, Some y => words_eqb x y
+                          | None, None => true
+                          | _, _ => false
+                          end) a b.
+
+Record btrace := mkBTrace {
+  bt_trace : trace;
+  bt_bcfg : bcfg;              (* u32::BITS (= IDS_IN_ITEM) and ITEMS_IN_BUCKET as printed by the harness *)
+  bt_dumps : list bdump        (* raw buckets after every call (consecutive traces; [] otherwise) *)
+}.
+
+Definition bcfg_okb (b : bcfg) (c : cfg) : bool := (0 <? W b) && (0 <? I b) && (ids_in_bucket c =? I b * W b).
+
+Fixpoint diffb_from (b : bcfg) (c : cfg) (sb : bstate) (l : list (call * outcome * obs)) (ds : list bdump) (i : N) : N :=
+  match l with
+  | [] => 0
+  | (cl, o, ob) :: r =>
+      let '(sb', o') := step_b b c sb cl in
+      let d := match ds with d :: _ => d | [] => [] end in
+      if out_eqb o o'
+         && forallb (fun p : N * option addr => oaddr_eqb (snd p) (cons_owner_of_b b sb' (fst p))) (o_owner ob)
+         && bdump_eqb d (dump_model (snd sb') d)
+      then diffb_from b c sb' r (tl ds) (N.succ i)
+      else N.succ i
+  end.
+Definition diff_bits (t : btrace) : N :=
+  match t_fl (bt_trace t) with
+  | FCons =>
+      if bcfg_okb (bt_bcfg t) (t_cfg (bt_trace t))
+      then diffb_from (bt_bcfg t) (t_cfg (bt_trace t)) (init_b (t_now0 (bt_trace t))) (t_steps (bt_trace t)) (bt_dumps t) 0
+      else 1
+  | _ => 0
+  end.
+
+(* first disagreement with either model *)
+Definition first_diff (a b : N) : N := if a =? 0 then b else if b =? 0 then a else N.min a b.
+
+Definition check (t : btrace) : verdict := (first_diff (diff (bt_trace t)) (diff_bits t), monitor (bt_trace t), 0).
+Definition check_all (ts : list btrace) : list verdict := map check ts.
+
+(* the bit-level dumps the model itself produces for given calls and dump shapes *)
+Fixpoint model_dumps (b : bcfg) (c : cfg) (sb : bstate) (l : list (call * obs)) (shapes : list bdump) : list bdump :=
+  match l with
+  | [] => []
+  | (cl, _) :: r =>
+      let sb' := fst (step_b b c sb cl) in
+      dump_model (snd sb') (match shapes with d :: _ => d | [] => [] end) :: model_dumps b c sb' r (tl shapes)
+  end.
+Definition model_btrace (fl : flavour) (c : cfg) (b : bcfg) (now0 : Z) (full : bool) (l : list (call * obs)) (shapes : list bdump) : btrace :=
+  mkBTrace (model_trace fl c now0 full l) b (model_dumps b c (init_b now0) l shapes).
